@@ -31,6 +31,9 @@ class P:
     flag: Any = True
     ix: int = -1        # position in the world spec, not used by queries (debugging / result encoding)
 
+    def __post_init__(self):
+        self.u = self.a       # an attribute the class does not declare (no field, no class attribute): it exists on instances only
+
     def big(self, k=2):
         return self.a > k
 
@@ -75,6 +78,9 @@ class PE:
     flag: Any = True
     ix: int = -1
 
+    def __post_init__(self):
+        self.u = self.a       # an attribute the class does not declare (no field, no class attribute): it exists on instances only
+
     def big(self, k=2):
         return self.a > k
 
@@ -101,6 +107,9 @@ class Q:
     p: Any = None
     b: Any = 1
     ix: int = -1
+
+    def __post_init__(self):
+        self.u = self.a       # an attribute the class does not declare (no field, no class attribute): it exists on instances only
 
     def big(self, k=2):
         return self.a > k
